@@ -22,7 +22,7 @@ SPEC = {
              "uncompress), stale references}.  Non-trivial = at least 3 steps executed and the tensor reached at "
              "least 2 fibers at some quiescent point; distinct = distinct case."),
     "shards": {"quick": 16, "thorough": 16},
-    "min_counts": {"quick": {"evaluations": 250, "rc_evals": 8000, "populate_yields": 300, "derived_checks": 200}},
+    "min_counts": {"quick": {"evaluations": 250, "rc_evals": 8000, "populate_yields": 300, "derived_checks": 200, "early_format_queries": 300}},
     "assumptions": [
         "position assignment / append of raw sub-fibers is not in the alphabet (C02's quantifier lists insertion, populate, dense reference iteration, fiber assignment, clearing)",
         "order of fibers inside a rank list is not compared (each once, none stale, none missing)",
@@ -52,6 +52,16 @@ class _Hooks(history.Hooks):
 
     def quiescent(self, label, ctx):
         mon = self.mon
+        if label == "init":
+            # a footprint model object built (and queried once) before the history: its later answers must describe
+            # the tree as it is then
+            self.early_fmt = _make_format(ctx.tensor)
+            if self.early_fmt is not None:
+                try:
+                    for r in ctx.tensor.getRankIds():
+                        self.early_fmt.getRank(r)
+                except BaseException:      # noqa
+                    self.early_fmt = None
         if label.startswith("populate"):
             mon.count("populate_yields")
         bad = False
@@ -87,7 +97,21 @@ class _Hooks(history.Hooks):
         self.mon.count("steps_skipped")
 
 
-def _derived(mon, t):
+def _make_format(t):
+    from fibertree.model.format import Format
+    ids = t.getRankIds()
+    if not ids or any(isinstance(i, list) for i in ids):
+        return None
+    spec = {"rank-order": ids}
+    for k, r in enumerate(ids):
+        spec[r] = {"format": "C", "rhbits": 3, "fhbits": 5 + k, "cbits": 7, "pbits": 11}
+    try:
+        return Format(t, spec)
+    except BaseException:      # noqa
+        return None
+
+
+def _derived(mon, t, early_fmt=None):
     """Per-rank quantities derived from the rank lists must describe the live tree."""
     from fibertree.model.format import Format
     if RC(t):
@@ -113,6 +137,11 @@ def _derived(mon, t):
             want = 3 + sum(5 + k + 18 * len(f.coords) for f in by_depth[k])
             got = fmt.getRank(r)
             mon.check(got == want, "derived:rank-footprint", f"Format.getRank({r})={got}, raw walk gives {want}")
+            if early_fmt is not None:
+                mon.count("early_format_queries")
+                got = early_fmt.getRank(r)
+                mon.check(got == want, "derived:rank-footprint:format-built-before-the-history",
+                          f"a Format built before the history answers getRank({r})={got}, the tree now gives {want}")
     except BaseException as e:      # noqa
         mon.count(f"derived:format-raised:{type(e).__name__}")
     # statistics clearing reaches every live fiber
@@ -138,7 +167,7 @@ def _derived(mon, t):
 def run_case(case, mon):
     h = _Hooks(mon)
     ctx = history.run_history(case["init"], case["ops"], h)
-    _derived(mon, ctx.tensor)
+    _derived(mon, ctx.tensor, getattr(h, "early_fmt", None))
     for o in ctx.others:
         _derived(mon, o)
     mon.count("steps_executed", len(case["ops"]))
